@@ -1456,6 +1456,17 @@ func (self *BinaryServerProtocol) ProcessCommad(command protocol.ICommand) error
 				self.stream.protocol = self
 			}
 			self.totalCommandCount += serverProtocol.totalCommandCount
+			if willCommands := serverProtocol.willCommands; willCommands != nil {
+				serverProtocol.willCommands = nil
+				serverProtocol.closed = true
+				for {
+					willCommand := willCommands.Pop()
+					if willCommand == nil {
+						break
+					}
+					_ = serverProtocol.ProcessCommad(willCommand)
+				}
+			}
 			serverProtocol.UnInitLockCommand()
 			serverProtocol.closed = true
 			return err
@@ -2423,6 +2434,17 @@ func (self *TextServerProtocol) ProcessCommad(command protocol.ICommand) error {
 				self.stream.protocol = self
 			}
 			self.totalCommandCount += serverProtocol.totalCommandCount
+			if willCommands := serverProtocol.willCommands; willCommands != nil {
+				serverProtocol.willCommands = nil
+				serverProtocol.closed = true
+				for {
+					willCommand := willCommands.Pop()
+					if willCommand == nil {
+						break
+					}
+					_ = serverProtocol.ProcessCommad(willCommand)
+				}
+			}
 			serverProtocol.UnInitLockCommand()
 			serverProtocol.closed = true
 			return err
